@@ -28,6 +28,9 @@ pub mod rt {
         Random { stay_pct: u32 },
         /// PCT: random distinct priorities, `depth` priority change points at random steps
         Pct { depth: u32, horizon: u64 },
+        /// PCT whose change points are placed on mutex acquisitions only (far fewer candidate
+        /// points than all atomics, and the places where preemption matters most)
+        PctLocks { depth: u32, horizon: u64 },
         RoundRobin,
     }
 
@@ -50,6 +53,9 @@ pub mod rt {
         pub replay: Option<Vec<u16>>,
         pub replay_pos: usize,
         pub steps: u64,
+        pub lock_steps: u64,
+        pub phase_steps: u64,
+        pub at_lock: bool,
         pub max_steps: u64,
         pub switches: u64,
         pub failure: Option<String>,
@@ -77,6 +83,9 @@ pub mod rt {
             replay: None,
             replay_pos: 0,
             steps: 0,
+            lock_steps: 0,
+            phase_steps: 0,
+            at_lock: false,
             max_steps: 0,
             switches: 0,
             failure: None,
@@ -158,8 +167,12 @@ pub mod rt {
                     _ => (next_rand(s) % runnable.len() as u64) as usize,
                 }
             }
-            Strategy::Pct { .. } => {
-                if s.change_points.contains(&s.steps) {
+            Strategy::Pct { .. } | Strategy::PctLocks { .. } => {
+                let hit = match s.strategy {
+                    Strategy::PctLocks { .. } => s.at_lock && s.change_points.contains(&s.lock_steps),
+                    _ => s.change_points.contains(&s.phase_steps),
+                };
+                if hit {
                     // lower the priority of the running thread below everything else
                     if let Some(m) = me {
                         let low = s.tasks.iter().map(|t| t.prio).min().unwrap_or(1);
@@ -213,12 +226,50 @@ pub mod rt {
 
     /// A scheduling point: the current thread stays runnable, the scheduler decides who continues.
     pub fn yield_point() {
+        yield_point_kind(false)
+    }
+
+    /// Start a new phase (e.g. a round of reader threads): PCT change points are drawn afresh
+    /// relative to the phase start, so that they fall into the concurrent part of the run and not
+    /// into the single-threaded set-up that precedes it.
+    pub fn new_phase() {
+        let mut g = lock();
+        if !g.active {
+            return;
+        }
+        g.phase_steps = 0;
+        g.lock_steps = 0;
+        if let Strategy::Pct { depth, horizon } | Strategy::PctLocks { depth, horizon } = g.strategy {
+            let mut cps = vec![];
+            for _ in 0..depth {
+                let x = next_rand(&mut g);
+                cps.push(1 + x % horizon.max(1));
+            }
+            g.change_points = cps;
+        }
+        if let Ok(v) = std::env::var("VERIF_DEBUG_CP") {
+            // diagnosis only: fixed change point (lock index) in every phase
+            g.change_points = vec![v.parse().unwrap_or(1)];
+        }
+    }
+
+    /// scheduling point right before a mutex acquisition
+    pub fn yield_point_lock() {
+        yield_point_kind(true)
+    }
+
+    fn yield_point_kind(is_lock: bool) {
         let Some(me) = me() else { return };
         let mut g = lock();
         if !g.active || g.current != me {
             return;
         }
         g.steps += 1;
+        g.phase_steps += 1;
+        g.at_lock = is_lock;
+        if is_lock {
+            g.lock_steps += 1;
+        }
         if g.steps > g.max_steps {
             let ms = g.max_steps;
             let d = describe(&g);
@@ -272,51 +323,87 @@ pub mod rt {
         hit
     }
 
+    // OS threads are pooled and reused across managed tasks and across executions: creating and
+    // destroying several threads per simulated run costs more (and contends more across worker
+    // processes) than everything else the run does.
+    type Job = (usize, Box<dyn FnOnce() + Send + 'static>);
+    struct PoolWorker {
+        job: StdMutex<Option<Job>>,
+        cv: StdCondvar,
+    }
+    static IDLE: StdMutex<Vec<StdArc<PoolWorker>>> = StdMutex::new(Vec::new());
+
+    fn run_job(id: usize, f: Box<dyn FnOnce() + Send + 'static>) {
+        ME.with(|m| m.set(Some(id)));
+        {
+            let mut g = lock();
+            let cv = g.tasks[id].cv.clone();
+            while g.current != id {
+                g = cv.wait(g).unwrap_or_else(|e| e.into_inner());
+            }
+        }
+        f();
+        let mut g = lock();
+        g.tasks[id].st = St::Finished;
+        let js = std::mem::take(&mut g.tasks[id].joiners);
+        for j in js {
+            if g.tasks[j].st == St::Blocked {
+                g.tasks[j].st = St::Runnable;
+            }
+        }
+        match pick(&mut g, None) {
+            Some(next) => {
+                g.switches += 1;
+                g.current = next;
+                let cv = g.tasks[next].cv.clone();
+                cv.notify_one();
+            }
+            None => {
+                if g.tasks.iter().all(|t| t.st == St::Finished) {
+                    g.current = usize::MAX;
+                    G.ctl.notify_all();
+                } else {
+                    let d = describe(&g);
+                    fail(&mut g, format!("deadlock: last runnable thread finished [{d}]"));
+                }
+            }
+        }
+        drop(g);
+        ME.with(|m| m.set(None));
+    }
+
     pub fn spawn_task(f: Box<dyn FnOnce() + Send + 'static>) -> usize {
         let mut g = lock();
         let id = g.tasks.len();
         let prio = 1_000_000 + (next_rand(&mut g) % 1_000_000);
         g.tasks.push(TaskInfo { st: St::Runnable, cv: StdArc::new(StdCondvar::new()), joiners: vec![], prio, what: "" });
-        let h = std::thread::Builder::new()
-            .stack_size(16 << 20)
-            .spawn(move || {
-                ME.with(|m| m.set(Some(id)));
-                {
-                    let mut g = lock();
-                    let cv = g.tasks[id].cv.clone();
-                    while g.current != id {
-                        g = cv.wait(g).unwrap_or_else(|e| e.into_inner());
-                    }
-                }
-                f();
-                let mut g = lock();
-                g.tasks[id].st = St::Finished;
-                let js = std::mem::take(&mut g.tasks[id].joiners);
-                for j in js {
-                    if g.tasks[j].st == St::Blocked {
-                        g.tasks[j].st = St::Runnable;
-                    }
-                }
-                match pick(&mut g, None) {
-                    Some(next) => {
-                        g.switches += 1;
-                        g.current = next;
-                        let cv = g.tasks[next].cv.clone();
-                        cv.notify_one();
-                    }
-                    None => {
-                        if g.tasks.iter().all(|t| t.st == St::Finished) {
-                            g.current = usize::MAX;
-                            G.ctl.notify_all();
-                        } else {
-                            let d = describe(&g);
-                            fail(&mut g, format!("deadlock: last runnable thread finished [{d}]"));
-                        }
-                    }
-                }
-            })
-            .expect("spawn OS thread");
-        g.os_threads.push(h);
+        drop(g);
+        let idle = IDLE.lock().unwrap_or_else(|e| e.into_inner()).pop();
+        match idle {
+            Some(w) => {
+                *w.job.lock().unwrap_or_else(|e| e.into_inner()) = Some((id, f));
+                w.cv.notify_one();
+            }
+            None => {
+                let w = StdArc::new(PoolWorker { job: StdMutex::new(Some((id, f))), cv: StdCondvar::new() });
+                std::thread::Builder::new()
+                    .stack_size(16 << 20)
+                    .spawn(move || loop {
+                        let job = {
+                            let mut j = w.job.lock().unwrap_or_else(|e| e.into_inner());
+                            loop {
+                                if let Some(job) = j.take() {
+                                    break job;
+                                }
+                                j = w.cv.wait(j).unwrap_or_else(|e| e.into_inner());
+                            }
+                        };
+                        run_job(job.0, job.1);
+                        IDLE.lock().unwrap_or_else(|e| e.into_inner()).push(w.clone());
+                    })
+                    .expect("spawn OS thread");
+            }
+        }
         id
     }
 
@@ -356,7 +443,7 @@ pub mod rt {
             assert!(!g.active, "one execution at a time per process");
             let mut cps = vec![];
             let mut rng = cfg.seed ^ 0xA5A5_5A5A_1234_5678;
-            if let Strategy::Pct { depth, horizon } = cfg.strategy {
+            if let Strategy::Pct { depth, horizon } | Strategy::PctLocks { depth, horizon } = cfg.strategy {
                 for _ in 0..depth {
                     rng = rng.wrapping_mul(6364136223846793005).wrapping_add(1442695040888963407);
                     cps.push(1 + (rng >> 33) % horizon.max(1));
@@ -373,6 +460,9 @@ pub mod rt {
                 replay: cfg.replay.clone(),
                 replay_pos: 0,
                 steps: 0,
+                lock_steps: 0,
+                phase_steps: 0,
+                at_lock: false,
                 max_steps: cfg.max_steps,
                 switches: 0,
                 failure: None,
@@ -400,14 +490,10 @@ pub mod rt {
             blocked_events: g.blocked_events,
             threads: g.tasks.len(),
         };
-        let hs = std::mem::take(&mut g.os_threads);
         g.active = false;
         drop(g);
-        if out.failure.is_none() {
-            for h in hs {
-                let _ = h.join();
-            }
-        } // else: the parked threads are leaked; the worker process stops after reporting
+        // after a failure the parked threads are leaked (never returned to the pool); the worker
+        // process stops after reporting
         out
     }
 }
@@ -449,7 +535,7 @@ pub mod sync {
     }
     impl<T: ?Sized> Mutex<T> {
         pub fn lock(&self) -> LockResult<MutexGuard<'_, T>> {
-            rt::yield_point();
+            rt::yield_point_lock();
             loop {
                 if !self.locked.get() {
                     self.locked.set(true);
